@@ -99,8 +99,8 @@ func init() {
 		NotCovered: "termination (a progress measure over run-time token streams), index-out-of-range and nil dereferences whose guard depends on run-time values, the narrow node switches whose operand set is determined by one grammar production (counted in the evidence, not decided), the macro and regex front ends beyond rule 1.",
 	}
 	props["C04"] = &PropSpec{
-		Rules:      []string{"lexer/position-owners", "lexer/backup-ascii", "lexer/colorize-slices"},
-		Decides:    "the bookkeeping conditions under which a token's line/column can agree with its byte offset: only the position primitives of the two lexers write the cursor and the line/column counters; every rewind undoes characters that are provably one byte wide (or rewinds to a recorded byte offset with the matching column count) and never crosses a line increment; and the colouring functions emit nothing but slices of their input between recorded offsets, wrapped in colour codes.",
+		Rules:      []string{"lexer/position-owners", "lexer/backup-ascii", "lexer/newline-tracked", "lexer/source-identity", "lexer/colorize-slices"},
+		Decides:    "the bookkeeping conditions under which a token's line/column can agree with its byte offset: the text the lexer counts positions on is the caller's text, unmodified; every consumption of a character that nobody has looked at goes through a line-tracking primitive or is examined for a newline afterwards; only the position primitives of the two lexers write the cursor and the line/column counters; every rewind undoes characters that are provably one byte wide (or rewinds to a recorded byte offset with the matching column count) and never crosses a line increment; and the colouring functions emit nothing but slices of their input between recorded offsets, wrapped in colour codes.",
 		NotCovered: "the partition property itself: that the spans the scanners produce are ordered, non-overlapping and cover what they should is a property of a 2500-line state machine over input bytes; skipByte callers (assumed to skip ASCII bytes).",
 	}
 	props["C19"] = &PropSpec{
